@@ -208,6 +208,12 @@ func genQConfig(r *core.Rand, bounded int) QConfig {
 }
 
 func finishQCase(c *core.Case, q *QWorld, res *core.Result, nops int) *core.Result {
+	if q.InReadTx && q.R != nil {
+		// a violation may have left the reader transaction open: File.Close would wait for it forever
+		rd := q.R
+		q.guard("Reader.Done(cleanup)", func() { rd.Done() })
+		q.InReadTx = false
+	}
 	if q.F != nil {
 		if !q.failed && !q.AbortCase && !q.UnsafeReopen {
 			// final: everything completed must be deliverable after a clean close/reopen
